@@ -20,9 +20,17 @@ func (group *Group) AddRtmpPushSession(url string, session *rtmp.PushSession) {
 	Log.Debugf("[%s] [%s] add rtmp PushSession into group.", group.UniqueKey, session.UniqueKey())
 	group.mutex.Lock()
 	defer group.mutex.Unlock()
-	if group.url2PushProxy != nil {
-		group.url2PushProxy[url].pushSession = session
+	if group.url2PushProxy == nil {
+		return
 	}
+	// 建连期间pub可能已经离开（甚至group已经被销毁），此时没有数据可以转推，关闭该session。
+	// 关闭后，启动该session的协程会从WaitChan返回，并通过DelRtmpPushSession清理isPushing标志
+	if group.rtmpPubSession == nil && group.rtspPubSession == nil {
+		Log.Infof("[%s] [%s] relay push session established but pub is gone, dispose it.", group.UniqueKey, session.UniqueKey())
+		session.Dispose()
+		return
+	}
+	group.url2PushProxy[url].pushSession = session
 }
 
 func (group *Group) DelRtmpPushSession(url string, session *rtmp.PushSession) {
